@@ -63,6 +63,8 @@ type Interp struct {
 	errID     int
 	// Hooks for host builtins of the properties (probe/panic/…)
 	Captured []*Err
+	// Callback is the function installed by (verif:set-callback fn), called by verif:hh-call.
+	Callback *V
 	// NoTRO makes the chain bookkeeping treat no call as tail-merged.
 	form *V // form currently being evaluated (for error sites)
 	// CallSigs, when non-nil, collects builtin-name(arg types) signatures.
